@@ -81,6 +81,7 @@ class Ctx:
         self.pending: List[List[bool]] = []
         self.pc: List[z3.BoolRef] = []
         self.pc_quant: List[bool] = []
+        self.pc_vars: List[set] = []
         self.solver = z3.Solver()
         self.solver.set("timeout", branch_timeout_ms)
         self.counter = 0
@@ -113,7 +114,45 @@ class Ctx:
     def _add(self, t):
         self.pc.append(t)
         self.pc_quant.append(has_quant(t))
+        self.pc_vars.append(free_consts(t))
         self.solver.add(t)
+
+    def implied_constant(self, y):
+        """numeral v with  path condition => y == v,  or None (two short solver calls, cached)"""
+        cache = self.ghost.setdefault("const_cache", {})
+        k = y.get_id()
+        if k in cache:
+            return cache[k][1]
+        v = None
+        try:
+            self.solver.set("timeout", 300)
+            self.n_solver_calls += 1
+            if self.solver.check() == z3.sat:
+                mv = self.solver.model().eval(y, model_completion=True)
+                if z3.is_rational_value(mv) or z3.is_int_value(mv):
+                    if self._feasible(y != mv, 300) is False and not (z3.is_rational_value(mv) and mv.numerator_as_long() == 0):
+                        v = mv if z3.is_real(mv) else z3.ToReal(mv)
+                        v = z3.simplify(v)
+        except z3.Z3Exception:
+            v = None
+        cache[k] = (y, v)
+        return v
+
+    def relevant(self, t):
+        """cone of influence: the path-condition entries that share symbols, transitively, with t
+        (a subset of the assumptions: `unsat` with the subset is `unsat` with all of them)"""
+        want = set(free_consts(t))
+        picked = [False] * len(self.pc)
+        changed = True
+        while changed:
+            changed = False
+            for i, vs in enumerate(self.pc_vars):
+                if not picked[i] and (vs & want):
+                    picked[i] = True
+                    if not vs <= want:
+                        want |= vs
+                        changed = True
+        return [a for a, p in zip(self.pc, picked) if p], sum(picked)
 
     def _feasible(self, t, timeout_ms=None) -> Optional[bool]:
         self.solver.push()
@@ -205,6 +244,28 @@ class Ctx:
 # ----------------------------------------------------------------------------------------------
 # term helpers
 # ----------------------------------------------------------------------------------------------
+
+
+def free_consts(t, cache=None):
+    """names of the uninterpreted constants / functions occurring in a term"""
+    out = set()
+    seen = set()
+    stack = [t]
+    while stack:
+        x = stack.pop()
+        i = x.get_id()
+        if i in seen:
+            continue
+        seen.add(i)
+        if z3.is_quantifier(x):
+            stack.append(x.body())
+            continue
+        if z3.is_app(x):
+            d = x.decl()
+            if d.kind() == z3.Z3_OP_UNINTERPRETED:
+                out.add(d.name())
+            stack.extend(x.children())
+    return out
 
 
 def has_quant(t) -> bool:
@@ -508,6 +569,10 @@ def _floor_real(x):
         return z3.simplify(z3.ToInt(x))
     if x.decl().kind() == z3.Z3_OP_TO_REAL:
         return x.arg(0)
+    if x.decl().kind() == z3.Z3_OP_ITE:
+        # floor distributes over if-then-else: the branches then share their floor atoms with
+        # every other occurrence of the same sub-terms
+        return z3.If(x.arg(0), _floor_real(x.arg(1)), _floor_real(x.arg(2)))
     cache = c.ghost.setdefault("floor_cache", {})
     hit = cache.get(x.get_id())
     if hit is not None:
@@ -564,6 +629,12 @@ def real_div(x, y):
     hit = cache.get(key)
     if hit is not None:
         return hit[2]
+    # is the divisor fixed by the path condition (e.g. read_shrink == 1)?  then divide by the constant
+    v = c.implied_constant(y)
+    if v is not None:
+        r = z3.simplify(x / v)
+        cache[key] = (x, y, r)
+        return r
     # x / (x0/y0) = x*y0 / x0   when the divisor is itself a quotient introduced earlier
     rev = c.ghost.setdefault("div_rev", {})
     back = rev.get(y.get_id())
